@@ -560,3 +560,79 @@ reg(dict(
         "generator = enumeration spec PktSeq.tla; the expected reason code is computed by the monitor from the cause marker, not from the crate",
         "keep-alive expiry (0x8D) is covered by C20",
     ]), ["C15"])
+
+
+# =============================================================================================
+# group "limits": C12  (PktSeq.tla generator + ProtoMon.tla limit rules)
+
+def c12_decode_for(kind, maxrecv, size):
+    def dec(tokens, variant):
+        if kind == "v3s":
+            cfg = dict(role="server", ver=3, gate_pub=1, gate_proto=0, max_qos=2, max_receive=maxrecv, max_receive_size=size)
+        elif kind == "v5s":
+            cfg = dict(role="server", ver=5, gate_pub=1, gate_proto=1, max_qos=2, ack_receive_max=maxrecv, max_receive_size=size)
+        else:
+            cfg = dict(role="client", ver=5, gate_pub=1, gate_proto=0, max_qos=2, client_receive_max=maxrecv, max_receive_size=size)
+        cmds = [handshake(cfg["role"], cfg["ver"])]
+        nid = 1
+        streaming = 0
+        for t in tokens:
+            if streaming > 0 and t in (1, 2, 3, 4, 6):
+                # a well-formed peer finishes the payload before the next packet
+                cmds.append({"c": "in", "p": {"t": "payload", "n": streaming}})
+                streaming = 0
+            if t == 1:      # small QoS 1 publish
+                cmds.append({"c": "in", "p": {"t": "publish", "q": 1, "id": nid, "topic": "t", "plen": 1}}); nid += 1
+            elif t == 2:    # big QoS 1 publish (around the byte limit)
+                cmds.append({"c": "in", "p": {"t": "publish", "q": 1, "id": nid, "topic": "t", "plen": 30}}); nid += 1
+            elif t == 3:    # QoS 0
+                cmds.append({"c": "in", "p": {"t": "publish", "q": 0, "topic": "t", "plen": 2}})
+            elif t == 4:    # streamed QoS 1 publish: header + 4 of 12 payload bytes
+                if streaming == 0:
+                    cmds.append({"c": "in", "p": {"t": "publish", "q": 1, "id": nid, "topic": "t", "plen": 12, "send": 4}}); nid += 1
+                    streaming = 8
+            elif t == 5:    # next 4 payload bytes
+                if streaming > 0:
+                    cmds.append({"c": "in", "p": {"t": "payload", "n": 4}}); streaming -= 4
+            elif t == 6:
+                if kind == "v5s":
+                    cmds.append({"c": "in", "p": {"t": "subscribe", "id": nid}}); nid += 1
+                elif kind == "v3s":
+                    cmds.append({"c": "in", "p": {"t": "pingreq"}})
+                else:
+                    cmds.append({"c": "in", "p": {"t": "publish", "q": 2, "id": nid, "topic": "t", "plen": 1}}); nid += 1
+            elif t == 7:
+                cmds.append({"c": "complete", "j": 0, "o": "ok", "read": "all"})
+            elif t == 8:
+                cmds.append({"c": "complete", "j": 1, "o": "ok", "read": "all"})
+        if streaming > 0:
+            cmds.append({"c": "in", "p": {"t": "payload", "n": streaming}})
+        cmds.append({"c": "drain", "read": "all"})
+        return cfg, cmds
+    return dec
+
+
+def c12_configs(tier):
+    cs = []
+    L = 4 if tier == "quick" else 5
+    combos = [("v3s", 1, 0), ("v3s", 2, 0), ("v3s", 0, 40), ("v3s", 2, 40), ("v3s", 0, 0),
+              ("v5s", 1, 0), ("v5s", 2, 0), ("v5c", 1, 0), ("v5c", 2, 0), ("v5s", 2, 40)]
+    if tier == "thorough":
+        combos += [("v3s", 3, 0), ("v3s", 4, 0), ("v3s", 1, 40), ("v5s", 3, 0), ("v5s", 4, 0)]
+    for kind, mr, size in combos:
+        cs.append((f"{kind}_r{mr}_s{size}", PKTSEQ_CFG.format(nt=8, maxlen=L, minlen=2), "PktSeq",
+                   c12_decode_for(kind, mr, size), [None]))
+    return cs
+
+
+reg(dict(
+    name="limits", judge="ProtoJudge", configs=c12_configs, signature=inb_signature,
+    level={}, quota=500, quota_thorough=15000,
+    rule="TLC enumerates every sequence (<= 4 quick, <= 5 thorough) over 8 tokens: small / byte-limit-sized / QoS 0 / "
+         "streamed publish, next payload chunk, control packet, complete oldest / second-oldest handler; against gated "
+         "handlers for max_receive 0..4, max_receive_size 0/40, v3 default middleware and v5 Receive Maximum (server and "
+         "client); ProtoMon judges handler overlap, bytes in flight, 0x93 only beyond the maximum, and at `final` that "
+         "everything sent was handled (reading resumed, streamed payload completed)",
+    assumptions=[
+        "generator = enumeration spec PktSeq.tla; byte accounting in the monitor uses payload sizes (lower bound of packet sizes) with 16 bytes of header slack",
+    ]), ["C12"])
